@@ -65,11 +65,9 @@ Theorem C06_destroy :
       no_session s q s' res nck /\
       lookup (cache s') k = None /\ lookup (store s') k = None /\
       (forall k', k' <> k -> k' <> KGen (supply s) -> Lc s' k' = Lc s k') /\
-      (store_norm s -> store_norm s').
-Proof.
-  intros s q k r Hp Hc Hn Hf Hq HL Ha.
-  exact (invalid_destroys s q k r Hp Hc Hn Hf Hq HL (anomaly_invalid _ _ _ _ Ha)).
-Qed.
+      (store_norm s -> store_norm s') /\
+      ok s' /\ conf s' = conf s.
+Proof. exact anomaly_destroys. Qed.
 
 (* Whenever Start returns a session — any state, any fault plan, created,
    found, rotated or reached through replaced IDs — the returned object records
